@@ -63,6 +63,7 @@ func (fr *Frame) analyzeOrder() []*ssa.BasicBlock {
 }
 
 type loopDry struct {
+	bases   map[string]map[string]bool
 	dirty   map[string]int
 	alloc   bool
 	li      *loopInfo
@@ -121,10 +122,37 @@ func (fr *Frame) cutLoop(b *ssa.BasicBlock, preds []*ssa.BasicBlock, ins []edgeI
 		names = append(names, k)
 	}
 	sort.Strings(names)
+	nlEntry := len(e.lines)
 	for _, k := range names {
 		srt := e.hsort(k)
 		old := e.harr(st.heap, k, srt)
-		nw := e.fresh(k, srt)
+		// precise havoc: when every write in the loop goes to cells whose base refs are fixed before the loop,
+		// only those cells are unknown at the loop head
+		precise := len(dry.bases[k]) > 0 && !strings.HasPrefix(k, "IT_")
+		var bs []string
+		for b := range dry.bases[k] {
+			at, known := e.symAt[b]
+			if b == "*" || !strings.HasPrefix(b, "|") || strings.Contains(b, " ") || (known && at > nlEntry) || (!known && !strings.HasPrefix(b, "|arg.")) {
+				precise = false
+			}
+			bs = append(bs, b)
+		}
+		var nw string
+		if precise {
+			sort.Strings(bs)
+			inner := strings.TrimSuffix(strings.TrimPrefix(srt, "(Array Int "), ")")
+			t := old
+			for _, b := range bs {
+				t = store(t, b, e.fresh(k+"!cell", inner))
+			}
+			nw = e.define(k, srt, t)
+			for b := range dry.bases[k] {
+				h.markBase(k, b)
+			}
+		} else {
+			nw = e.fresh(k, srt)
+			h.markBase(k, "*")
+		}
 		h.m[k] = nw
 		h.mark(k, dry.dirty[k])
 		e.assumeClosure(k, nw, h.alloc)
@@ -201,10 +229,11 @@ func (fr *Frame) dryRun(li *loopInfo, st *BState, phis []*ssa.Phi) *loopDry {
 	savedNotes := e.notes
 	e.notes = map[string]bool{}
 	e.dry++
-	d := &loopDry{dirty: map[string]int{}, li: li, serial0: e.serial}
+	d := &loopDry{dirty: map[string]int{}, bases: map[string]map[string]bool{}, li: li, serial0: e.serial}
 	fr.dryStack = append(fr.dryStack, d)
 	h := st.heap.clone()
 	h.dirty = map[string]int{}
+	h.bases = map[string]map[string]bool{}
 	for _, phi := range phis {
 		if ev := fr.env[phi]; ev.K == kAddr || ev.K == kIter || ev.K == kClosure {
 			continue
@@ -291,6 +320,14 @@ func (fr *Frame) backEdge(from, to *ssa.BasicBlock, reach string, h *Heap) {
 		for k, v := range h.dirty {
 			if old, ok := d.dirty[k]; !ok || v < old {
 				d.dirty[k] = v
+			}
+		}
+		for k, s := range h.bases {
+			if d.bases[k] == nil {
+				d.bases[k] = map[string]bool{}
+			}
+			for b := range s {
+				d.bases[k][b] = true
 			}
 		}
 		if e.serial != d.serial0 {
@@ -469,7 +506,10 @@ func (fr *Frame) instr(in ssa.Instruction, idx int, st *BState) {
 		}
 		// boxed non-pointer: opaque
 		o := e.newRef(st.heap, fr.vname(x)+"#box")
-		fr.set(x, scalar(x.Type(), o))
+		bv := scalar(x.Type(), o)
+		boxed := v
+		bv.Box = &boxed
+		fr.set(x, bv)
 	case *ssa.MakeClosure:
 		var bs []Val
 		for _, b := range x.Bindings {
@@ -927,14 +967,21 @@ func (e *Enc) mapStore(h *Heap, mt *types.Map, m, k string, v Val) {
 	D := sel(DH, m)
 	had := sel(D, k)
 	e.hset(h, ln, arrSort('L', ""), store(LH, m, ite(had, sel(LH, m), sx("+", sel(LH, m), "1"))), m)
-	e.hset(h, dn, arrSort('D', ""), store(DH, m, store(D, k, "true")), m)
+	Dold := e.define("mapdom.old", "(Array Int Bool)", D)
+	Dnew := e.define("mapdom.new", "(Array Int Bool)", store(Dold, k, "true"))
+	e.hset(h, dn, arrSort('D', ""), store(DH, m, Dnew), m)
+	// instantiation hints (consequences of the array theory): facts about the old map carry over to the new one
+	e.assume("true", fmt.Sprintf("(forall ((i Int)) (! (= (select %s i) (or (select %s i) (= i %s))) :pattern ((select %s i))))", Dnew, Dold, k, Dold))
 	cs := flatten(mt.Elem())
 	vs := comps(v)
 	for i, c := range cs {
 		n := mapVal(mt, c)
 		s := arrSort('V', c.Sort)
 		VH := e.harr(h, n, s)
-		e.hset(h, n, s, store(VH, m, store(sel(VH, m), k, vs[i])), m)
+		Vold := e.define("mapval.old", "(Array Int "+c.Sort+")", sel(VH, m))
+		Vnew := e.define("mapval.new", "(Array Int "+c.Sort+")", store(Vold, k, vs[i]))
+		e.hset(h, n, s, store(VH, m, Vnew), m)
+		e.assume("true", fmt.Sprintf("(forall ((i Int)) (! (=> (not (= i %s)) (= (select %s i) (select %s i))) :pattern ((select %s i))))", k, Vnew, Vold, Vold))
 	}
 }
 
